@@ -23,6 +23,6 @@ out = ['# Independently seeded property-breaking changes', '',
  '| id | change | needs | check result | signatures |', '|---|---|---|---|---|']
 for r in rows:
     out.append('| ' + ' | '.join(r) + ' |')
-out += ['', f'{len(rows)} seeded changes: {det} were detected by the check as it stood when the seed was written, {aft} were missed at first and are detected after the strengthening noted in the row, {out_of} is not detected because its trigger lies outside the premise of its property (see its row) (every strengthening is a generalisation of the explored space — a new dimension, family or oracle — not a special case for the seed). None of these patches is applied to `/repo`.', '']
+out += ['', f'{len(rows)} seeded changes: {det} were detected by the check as it stood when the seed was written, {aft} were missed at first and are detected after the strengthening noted in the row, {out_of} are not detected by their own check (see their rows: one trigger lies outside the premise of its property, one change is caught by the neighbouring check C02 only) (every strengthening is a generalisation of the explored space — a new dimension, family or oracle — not a special case for the seed). None of these patches is applied to `/repo`.', '']
 open('/verif/seeded/README.md', 'w').write('\n'.join(out))
 print(len(rows), det, aft)
